@@ -127,7 +127,7 @@ func loadAll(pkgDirs []string) (*loaded, error) {
 		}
 	}
 	env := append(os.Environ(), "PATH=/opt/veriftools/go1.26.8/bin:"+os.Getenv("PATH"), "GOFLAGS=-mod=mod", "GOPROXY=off", "GOSUMDB=off", "GOTOOLCHAIN=local", "CGO_ENABLED=0")
-	cfg := &packages.Config{Mode: packages.LoadAllSyntax, Dir: repoDir, Env: env}
+	cfg := &packages.Config{Mode: packages.LoadAllSyntax, Dir: repoDir, Env: env, BuildFlags: []string{"-tags=verif"}}
 	pkgs, err := packages.Load(cfg, patterns...)
 	if err != nil {
 		return nil, err
